@@ -28,7 +28,7 @@ def phase_writers(chk, prog):
     """Context.phase is written only by code that no callback-side (non-exclusive) entry point reaches."""
     ws = field_writers(prog, "context::Context", "phase")
     fns = sorted({prog.fn_of_closure(w[0]) for w in ws})
-    chk.floor("phase-writers", len(fns), 2)
+    chk.floor("phase-writers", len(fns), 1)
     prog.edges()
     for f in c03.entry_points(prog):
         if c03.exclusive_arena_sig(prog, f):
@@ -57,7 +57,7 @@ def collection_call_sites(chk, prog):
         chk.inst("do_collection-call-site-constants", e.caller, ok,
                  detail="run_until/stop are not compile-time constants at %s:%s" % (e.file, e.line),
                  sample={"caller": e.caller, "run_until": consts[0], "stop": consts[1]})
-    chk.floor("do_collection-call-sites", n, 6)
+    chk.floor("do_collection-call-sites", n, 3)
 
 
 def _const_variant(prog, body, op):
